@@ -244,7 +244,7 @@ func verifKindType(kind uint32) (uint8, bool) {
 
 func verifC04(nsec, vcpus int, product sgpb.SevProduct_SevProductName, bits uint) {
 	const n = 4096
-	verifUnwindCut(3)
+	verifUnwindCut(nsec) // symbolic decisions per loop head: one per declared section and page
 	fw := verifSevImage(n, nsec)
 	orig := append([]byte(nil), fw...)
 	for i := 0; i < nsec; i++ {
